@@ -21,6 +21,7 @@ for id in "$@"; do
   echo "== $id $TIER exit=$rc"
   grep -E "^(VIOLATION|KNOWN-FINDING|INCONCLUSIVE)" "$OUT/$id.out" | cut -c1-260 | head -${SEEDTEST_LINES:-8}
   grep -E "^C[0-9]+ (quick|thorough)" "$OUT/$id.out" | tail -1 | cut -c1-200
+  echo "firstsig=$(grep -m1 -E "^  signature=" "$OUT/$id.out" | sed 's/^  signature=//')"
   if [ "$rc" = 2 ]; then tail -5 "$OUT/$id.out" | cut -c1-300; fi
 done
 restore
